@@ -100,6 +100,8 @@ structure St where
   allBlocks : List Nat := []
   /-- GHOST (not in the Go code): block → node of the latest host affinity the collector has SEEN for it -/
   seen : AMap Nat := []
+  /-- environment: the next `ReleaseIPs` call fails (returns an error, releases nothing) -/
+  failRel : Bool := false
 deriving Repr, Inhabited
 
 inductive Call
@@ -182,14 +184,6 @@ def onBlockUpdated (s : St) (b : Nat) (aff : Option Nat) (es : List Entry) : St 
   let s4 := releaseAll s3 (s3.allocs.filter (fun a => a.block == b && !(currentIds b es).contains a.id))
   { s4 with allBlocks := sins s4.allBlocks b }
 
-/-- `onBlockUpdated` for a block whose affinity is set but is NOT a `host:` affinity (e.g. `virtual:…`,
-model.IPAMAffinityTypeVirtual): `strings.CutPrefix` fails, so neither the host branch nor the
-"affinity removed" branch runs — `nodesByBlock` / `blocksByNode` keep whatever they had; `n` stays "". -/
-def onBlockOther (s : St) (b : Nat) (es : List Entry) : St :=
-  let s3 := emptyStage (upsertAll s b es) b es.isEmpty none
-  let s4 := releaseAll s3 (s3.allocs.filter (fun a => a.block == b && !(currentIds b es).contains a.id))
-  { s4 with allBlocks := sins s4.allBlocks b }
-
 /-- a block's affinity as the collector distinguishes it -/
 inductive Aff | host (n : Nat) | none | other
 deriving DecidableEq, Repr, Inhabited
@@ -198,7 +192,8 @@ def onBlock (s : St) (b : Nat) (aff : Aff) (es : List Entry) : St :=
   match aff with
   | .host n => { onBlockUpdated s b (some n) es with seen := s.seen.set b n }
   | .none => { onBlockUpdated s b none es with seen := s.seen.del b }
-  | .other => { onBlockOther s b es with seen := s.seen.del b }
+  -- repaired code (/repo 8ebf246): a non-`host:` affinity (e.g. `virtual:`) is handled like a removed one
+  | .other => { onBlockUpdated s b none es with seen := s.seen.del b }
 
 /-- `forgetBlock` -/
 def forgetBlock (s : St) (b : Nat) : St :=
@@ -378,7 +373,21 @@ def syncIPAM (s : St) : St × List Call × Bool :=
     let s4 := r1.2.foldl markClean r3.1
     (s4, r2.2 ++ r3.2 ++ r1.2.map Call.releaseHostAffinities, !s4.leaks.isEmpty)
 
+/-- `syncIPAM` when `ReleaseIPs` returns an error: `garbageCollectKnownLeaks` has resurrected what its final check
+found valid and issued the call, nothing is released, and `syncIPAM` returns the error at once (no block-affinity or
+node clean-up; the nodes to release stay dirty). -/
+def syncIPAMFail (s : St) : St × List Call × Bool :=
+  let r1 := checkAllocations s
+  let sel := gcSelect r1.1 r1.1.leaks
+  ({ sel.1 with failRel := false }, [Call.releaseIPs (sel.2.map (fun a => (a.block, a.ord, a.handle, a.seq)))], true)
+
+/-- one `syncIPAM`, with the injected client failure if one is pending and a `ReleaseIPs` call is made -/
+def syncStep (s : St) : St × List Call × Bool :=
+  if s.inSync && s.failRel && !(gcSelect (checkAllocations s).1 (checkAllocations s).1.leaks).2.isEmpty then syncIPAMFail s
+  else syncIPAM s
+
 inductive Op
+  | failRel
   | inSync
   | block (b : Nat) (aff : Aff) (es : List Entry)
   | blockDel (b : Nat)
@@ -410,6 +419,7 @@ def step (s : St) : Op → St × List Call × Bool
                             api := if a then s.env.api.del id else s.env.api }, [], false)
   | .dirty n => (markDirty s n, [], false)
   | .tick d => ({ s with now := s.now + d }, [], false)
-  | .sync full => syncIPAM (if full then { s with fullSync := true } else s)
+  | .sync full => syncStep (if full then { s with fullSync := true } else s)
+  | .failRel => ({ s with failRel := true }, [], false)
 
 end CalicoVerif.C23
